@@ -7,7 +7,7 @@
    (body inputs in order + builder.inputs afterwards, or the exception kind), and the result of the
    byte/field snapshot comparison of all caller objects. *)
 From Coq Require Import NArith Ascii String List Bool Lia Permutation Sorted.
-From PyC Require Import Base Inputs InputsProofs.
+From PyC Require Import Base Inputs InputsProofs KeyedSet InputsKeyed.
 Import ListNotations.
 Open Scope N_scope.
 
@@ -25,7 +25,9 @@ Record rbuild := mkRB {
   rb_snap : bool }.
 (* RCtx c : from here on the chain context answers c (address id -> UTxO indices) *)
 Inductive ritem := ROp (o : rop) | RBuild (b : rbuild) | RCtx (c : list (N * list nat)).
-Record rcase := mkRC { rc_utxos : list utxo; rc_ctx : list (N * list nat); rc_items : list ritem }.
+(* rc_keys: per row of the table, the key under which OrderedSet files the row's reference (64 bits of a digest of
+   str(TransactionInput), computed by the implementation) *)
+Record rcase := mkRC { rc_utxos : list utxo; rc_ctx : list (N * list nat); rc_items : list ritem; rc_keys : list N }.
 
 (* an index outside the table (an object the driver does not know) resolves to a UTxO equal to nothing else *)
 Definition res (tbl : list utxo) (i : nat) : utxo :=
@@ -164,9 +166,14 @@ Fixpoint oracle_items (c : ctx) (tbl : list utxo) (its : list ritem) : bool :=
   | RBuild b :: r => oracle_build c tbl b && oracle_items c tbl r
   | RCtx c' :: r => oracle_items (res_ctx tbl c') tbl r
   end.
+(* the hypothesis of InputsKeyed.body_inputs_keyed_table, on the implementation's keys: distinct references of the case are
+   filed under distinct keys, equal references under one key *)
+Definition key_table (k : rcase) : list (ref * N) := combine (map ref_of (rc_utxos k)) (rc_keys k).
+Definition keys_ok (k : rcase) : bool :=
+  Nat.eqb (length (rc_utxos k)) (length (rc_keys k)) && keys_injectiveb (key_table k).
 Definition c09_oracle (k : rcase) : bool :=
   let tbl := rc_utxos k in
-  oracle_items (res_ctx tbl (rc_ctx k)) tbl (rc_items k).
+  keys_ok k && oracle_items (res_ctx tbl (rc_ctx k)) tbl (rc_items k).
 
 (* ---------- the run-time checks mean what the theorems assume ---------- *)
 Lemma remove1_perm u l : forall l', remove1 u l = Some l' -> Permutation l (u :: l').
